@@ -328,7 +328,7 @@ macro_rules! by_name {
         $(
             #[kani::proof]
             #[kani::unwind(3)]
-            #[kani::stub(crate::scheme::Scheme::get_field, crate::scheme::verif_kani::c08::get_field__contract)]
+            #[kani::stub(crate::scheme::Scheme::get_field, crate::scheme::Scheme::get_field__contract)]
             #[kani::stub(<crate::types::ExpectedTypeList as std::convert::From<crate::types::Type>>::from, crate::types::verif_kani::c08::expected_type_list_from_type__contract)]
             fn $name() {
                 set_by_name_contract::<$ft, $vk, $n, $p>()
